@@ -116,7 +116,10 @@ def h_controller(ctx, n):
         ctx.check('frames are contiguous', a == consumed)
         ctx.check('decoder consumed exactly the declared length', ((data[a + 2] << 8) | data[a + 3]) == b - a)
         consumed = b
-      ctx.check('one delivery per decoded frame', len(delivered[id(conA)]) == len(conA.unpackers.spans))
+      # every decoded frame whose type has a handler slot is delivered exactly once (types without one are logged and skipped)
+      nh = len(conA.handlers)
+      due = sum(1 for a, b in conA.unpackers.spans if bool(data[a + 1] < nh))
+      ctx.check('one delivery per decoded frame that has a handler', len(delivered[id(conA)]) == due)
       ctx.check('residual buffer is the unconsumed tail', ctx.Eq(conA.buf, data[consumed:]))
       rest = conA.buf
       if len(rest) >= 8:
